@@ -48,33 +48,51 @@ Fail(k) == res' = k /\ UNCHANGED svars
 Lo(b) == b[1].h
 Hi(b) == b[Len(b)].h
 
+(* The insert rules as functions of a store state S = [hdr, sampled, pruned, meta], so that they can be applied  *)
+(* to the current state (the actions below) and composed (concurrent inserts must be explained by SOME sequential *)
+(* order: Trace_Store's "par" events).                                                                             *)
+StateRec == [hdr |-> hdr, sampled |-> sampled, pruned |-> pruned, meta |-> meta]
+StoredIn(S) == DOMAIN S.hdr
+TagsIn(S)   == {S.hdr[h].tag : h \in StoredIn(S)}
+
 (* Which error kinds apply to a batch (evaluated independently where defined). *)
-NeighborsBad(b) ==
-    \/ (Lo(b) - 1) \in Stored /\ ~VerifyAdj(hdr[Lo(b) - 1], b[1])
-    \/ (Hi(b) + 1) \in Stored /\ ~VerifyAdj(b[Len(b)], hdr[Hi(b) + 1])
-DupTag(b) == \E i \in DOMAIN b : \/ b[i].tag \in Tags
-                                 \/ \E j \in 1..(i-1) : b[j].tag = b[i].tag
-FailKinds(b) ==
+NeighborsBadIn(S, b) ==
+    \/ (Lo(b) - 1) \in StoredIn(S) /\ ~VerifyAdj(S.hdr[Lo(b) - 1], b[1])
+    \/ (Hi(b) + 1) \in StoredIn(S) /\ ~VerifyAdj(b[Len(b)], S.hdr[Hi(b) + 1])
+DupTagIn(S, b) == \E i \in DOMAIN b : \/ b[i].tag \in TagsIn(S)
+                                       \/ \E j \in 1..(i-1) : b[j].tag = b[i].tag
+FailKindsIn(S, b) ==
     (IF ~Linked(b) THEN {RVerification} ELSE {})
-    \cup (IF ~Admit(Stored, Lo(b), Hi(b)) THEN {RConstraints} ELSE {})
-    \cup (IF Admit(Stored, Lo(b), Hi(b)) /\ NeighborsBad(b) THEN {RNeighbors} ELSE {})
-    \cup (IF DupTag(b) THEN {RHashExists} ELSE {})
+    \cup (IF ~Admit(StoredIn(S), Lo(b), Hi(b)) THEN {RConstraints} ELSE {})
+    \cup (IF Admit(StoredIn(S), Lo(b), Hi(b)) /\ NeighborsBadIn(S, b) THEN {RNeighbors} ELSE {})
+    \cup (IF DupTagIn(S, b) THEN {RHashExists} ELSE {})
 
 \* The order in which the implementation checks (algorithmic layer)
-FirstKind(b) == CASE ~Linked(b)                      -> RVerification
-                  [] ~Admit(Stored, Lo(b), Hi(b))    -> RConstraints
-                  [] NeighborsBad(b)                 -> RNeighbors
-                  [] DupTag(b)                       -> RHashExists
-                  [] OTHER                           -> ROk
+FirstKindIn(S, b) == CASE ~Linked(b)                           -> RVerification
+                       [] ~Admit(StoredIn(S), Lo(b), Hi(b))    -> RConstraints
+                       [] NeighborsBadIn(S, b)                 -> RNeighbors
+                       [] DupTagIn(S, b)                       -> RHashExists
+                       [] OTHER                                -> ROk
+
+\* the state after insert(b): unchanged when the batch is empty or refused
+InsertIn(S, b) ==
+    IF b = <<>> \/ FirstKindIn(S, b) # ROk THEN S
+    ELSE LET rng == Lo(b)..Hi(b) IN
+         [hdr     |-> [h \in StoredIn(S) \cup rng |-> IF h \in rng THEN b[h - Lo(b) + 1] ELSE S.hdr[h]],
+          sampled |-> S.sampled \ rng,
+          pruned  |-> S.pruned \ rng,
+          meta    |-> S.meta]
+
+NeighborsBad(b) == NeighborsBadIn(StateRec, b)
+DupTag(b)       == DupTagIn(StateRec, b)
+FailKinds(b)    == FailKindsIn(StateRec, b)
+FirstKind(b)    == FirstKindIn(StateRec, b)
 
 Insert(b) ==
     IF b = <<>> THEN res' = ROk /\ UNCHANGED svars
     ELSE IF FirstKind(b) # ROk THEN Fail(FirstKind(b))
-    ELSE LET rng == Lo(b)..Hi(b) IN
-         /\ hdr' = [h \in Stored \cup rng |-> IF h \in rng THEN b[h - Lo(b) + 1] ELSE hdr[h]]
-         /\ sampled' = sampled \ rng
-         /\ pruned' = pruned \ rng
-         /\ UNCHANGED meta
+    ELSE LET S2 == InsertIn(StateRec, b) IN
+         /\ hdr' = S2.hdr /\ sampled' = S2.sampled /\ pruned' = S2.pruned /\ meta' = S2.meta
          /\ res' = ROk
 
 RemoveHeight(h) ==
